@@ -157,23 +157,154 @@ fn small_model(version: M2Version) {
 #[kani::proof]
 #[kani::stub(std::fmt::format, vio::fmt_stub)]
 #[kani::stub(std::string::String::from_utf8_lossy, segio::lossy_stub)]
-#[kani::unwind(72)]
+#[kani::unwind(16)]
 fn c13e_model_small_wotlk() { small_model(M2Version::WotLK) }
 #[kani::proof]
 #[kani::stub(std::fmt::format, vio::fmt_stub)]
 #[kani::stub(std::string::String::from_utf8_lossy, segio::lossy_stub)]
-#[kani::unwind(72)]
+#[kani::unwind(16)]
 fn c13e_model_small_vanilla() { small_model(M2Version::Vanilla) }
 #[kani::proof]
 #[kani::stub(std::fmt::format, vio::fmt_stub)]
 #[kani::stub(std::string::String::from_utf8_lossy, segio::lossy_stub)]
-#[kani::unwind(72)]
+#[kani::unwind(16)]
 fn c13e_model_small_tbc() { small_model(M2Version::TBC) }
 #[kani::proof]
 #[kani::stub(std::fmt::format, vio::fmt_stub)]
 #[kani::stub(std::string::String::from_utf8_lossy, segio::lossy_stub)]
-#[kani::unwind(72)]
+#[kani::unwind(16)]
 fn c13e_model_small_cataclysm() { small_model(M2Version::Cataclysm) }
+
+// ------------------------------------------------------------------ model with one element in (almost) every section
+/// sequence, static bone, texture without file name, 6 lookup tables, bounding data, event, attachment, camera, light:
+/// every (count, offset) of the written header points at its section, sections follow each other without gap in the
+/// order the writer emits them, first fields of every record are where the header says
+fn sections_model(version: M2Version, s_seq: usize, s_bone: usize, s_cam: usize, with_tracks: bool) {
+    let mut m = model_of(version, 0);
+    let v = m.header.version;
+    let seq = M2Animation { animation_id: kani::any(), sub_animation_id: kani::any(), start_timestamp: 1000, end_timestamp: Some(kani::any()),
+        movement_speed: kani::any(), flags: kani::any(), frequency: kani::any(), padding: 0, replay: None, minimum_extent: None, maximum_extent: None,
+        extent_radius: Some(kani::any()), next_animation: Some(kani::any()), aliasing: Some(kani::any()) };
+    let seq_id = seq.animation_id;
+    m.animations.push(seq);
+    let bone = M2Bone::new(kani::any(), kani::any());
+    let bone_id = bone.bone_id;
+    m.bones.push(bone);
+    // records that own a Vec (texture file name, key-frame values of embedded tracks) only in the `with_tracks` variant
+    if with_tracks {
+        m.textures.push(M2Texture { texture_type: M2TextureType::Hair, flags: M2TextureFlags::from_bits_retain(kani::any()),
+            filename: M2ArrayString { string: FixedString { data: Vec::new() }, array: M2Array::new(0, 0) } });
+    }
+    let (l0, l1, l2, l3, l4, l5): (u16, u16, u16, u16, u16, u16) = (kani::any(), kani::any(), kani::any(), kani::any(), kani::any(), kani::any());
+    m.raw_data.bone_lookup_table.push(l0);
+    m.raw_data.texture_units.push(l1);
+    m.raw_data.transparency_lookup_table.push(l2);
+    m.raw_data.texture_animation_lookup.push(l3);
+    m.raw_data.attachment_lookup_table.push(l4);
+    m.raw_data.camera_lookup_table.push(l5);
+    let bt: [u8; 6] = kani::any();
+    let bv: [u8; 12] = kani::any();
+    let bn: [u8; 12] = kani::any();
+    m.raw_data.bounding_triangles = bt.to_vec();
+    m.raw_data.bounding_vertices = bv.to_vec();
+    m.raw_data.bounding_normals = bn.to_vec();
+    let mut ev = M2Event::new([b'$', b'C', b'A', b'H'], kani::any());
+    ev.data = kani::any();
+    let ev_data = ev.data;
+    m.events.push(ev);
+    let mut at = M2Attachment::new(kani::any(), kani::any());
+    at.position.x = kani::any();
+    let (at_id, at_x) = (at.id, at.position.x.to_bits());
+    if with_tracks { m.attachments.push(at); } else { std::mem::forget(at); }
+    let mut cam = M2Camera::new(kani::any());
+    cam.camera_type = kani::any();
+    let (cam_ty, cam_id) = (cam.camera_type, cam.id);
+    if with_tracks { m.cameras.push(cam); } else { std::mem::forget(cam); }
+    let li = M2Light::new(crate::chunks::light::M2LightType::Point, kani::any(), kani::any());
+    let li_id = li.id;
+    if with_tracks { m.lights.push(li); } else { std::mem::forget(li); }
+
+    let mut out = Seg::new();
+    let w = m.write(&mut out);
+    assert!(w.is_ok());
+    let hs = m.calculate_header_size();
+    let data = s_seq + s_bone + 2 + 2 + 2 + 2 + 6 + 12 + 12 + 2 + 2 + 44 + if with_tracks { 16 + 48 + s_cam + 164 } else { 0 };
+    kani::cover!(out.pos == hs + data, "model written");
+    assert!(out.pos == hs + data, "file length != header + sum of the section sizes");
+    let mut src = out.into_source();
+    let r = M2Header::parse(&mut src);
+    if r.is_err() {
+        assert!(false, "header of a model written by the library is rejected by the header parser");
+        std::mem::forget((r, w, m));
+        return;
+    }
+    let h = r.unwrap();
+    assert!(src.pos == hs, "header parser consumes a different number of bytes than calculate_header_size()");
+    let b = &src;
+    let mut o = hs;
+    assert!(h.animations.count == 1 && h.animations.offset as usize == o && rd16(b, o) == seq_id, "sequences: header (count, offset) or content wrong");
+    o += s_seq;
+    assert!(h.bones.count == 1 && h.bones.offset as usize == o && rd32(b, o) == bone_id as u32, "bones: header (count, offset) or content wrong");
+    o += s_bone;
+    if with_tracks {
+        assert!(h.textures.count == 1 && h.textures.offset as usize == o && rd32(b, o) == 7 && rd32(b, o + 8) == 0, "textures: header (count, offset) or content wrong");
+        o += 16;
+    } else { assert!(h.textures.count == 0); }
+    assert!(h.render_flags.count == 0);
+    assert!(h.bone_lookup_table.count == 1 && h.bone_lookup_table.offset as usize == o && rd16(b, o) == l0, "bone lookup: offset or content wrong");
+    o += 2;
+    assert!(h.texture_lookup_table.count == 0);
+    assert!(h.texture_units.count == 1 && h.texture_units.offset as usize == o && rd16(b, o) == l1, "texture units: offset or content wrong");
+    o += 2;
+    assert!(h.transparency_lookup_table.count == 1 && h.transparency_lookup_table.offset as usize == o && rd16(b, o) == l2, "transparency lookup: offset or content wrong");
+    o += 2;
+    assert!(h.texture_animation_lookup.count == 1 && h.texture_animation_lookup.offset as usize == o && rd16(b, o) == l3, "texture animation lookup: offset or content wrong");
+    o += 2;
+    assert!(h.bounding_triangles.count == 3 && h.bounding_triangles.offset as usize == o && b.get(o) == bt[0] && b.get(o + 5) == bt[5], "bounding triangles: count, offset or content wrong");
+    o += 6;
+    assert!(h.bounding_vertices.count == 1 && h.bounding_vertices.offset as usize == o && b.get(o) == bv[0] && b.get(o + 11) == bv[11], "bounding vertices: count, offset or content wrong");
+    o += 12;
+    assert!(h.bounding_normals.count == 1 && h.bounding_normals.offset as usize == o && b.get(o) == bn[0] && b.get(o + 11) == bn[11], "bounding normals: count, offset or content wrong");
+    o += 12;
+    assert!(h.attachment_lookup_table.count == 1 && h.attachment_lookup_table.offset as usize == o && rd16(b, o) == l4, "attachment lookup: offset or content wrong");
+    o += 2;
+    assert!(h.camera_lookup_table.count == 1 && h.camera_lookup_table.offset as usize == o && rd16(b, o) == l5, "camera lookup: offset or content wrong");
+    o += 2;
+    assert!(h.views.count == 0 && h.particle_emitters.count == 0 && h.ribbon_emitters.count == 0 && h.texture_animations.count == 0
+        && h.color_animations.count == 0 && h.transparency_lookup.count == 0);
+    assert!(h.events.count == 1 && h.events.offset as usize == o && b.get(o) == b'$' && b.get(o + 3) == b'H' && rd32(b, o + 4) == ev_data, "events: header (count, offset) or content wrong");
+    o += 44;
+    if !with_tracks {
+        assert!(h.attachments.count == 0 && h.cameras.count == 0 && h.lights.count == 0);
+        std::mem::forget((h, w, m));
+        return;
+    }
+    assert!(h.attachments.count == 1 && h.attachments.offset as usize == o && rd32(b, o) == at_id && rd32(b, o + 8) == at_x, "attachments: header (count, offset) or content wrong");
+    o += 48;
+    assert!(h.cameras.count == 1 && h.cameras.offset as usize == o && rd32(b, o) == cam_ty, "cameras: header (count, offset) or content wrong");
+    assert!(v < 264 || rd32(b, o + 124) == cam_id, "camera id not where the WotLK+ layout puts it");
+    o += s_cam;
+    assert!(h.lights.count == 1 && h.lights.offset as usize == o && b.get(o) == 1 && rd32(b, o + 156) == li_id, "lights: header (count, offset) or content wrong");
+    std::mem::forget((h, w, m));
+}
+#[kani::proof]
+#[kani::stub(std::fmt::format, vio::fmt_stub)]
+#[kani::stub(std::string::String::from_utf8_lossy, segio::lossy_stub)]
+#[kani::unwind(16)]
+fn c13e_model_sections_wotlk() { sections_model(M2Version::WotLK, 52, 88, 132, false) }
+// `with_tracks = true` (texture, attachment, camera, light added) is not registered: M2Model::write clones those records, the
+// clone copies a Vec whose length is not a constant for symbolic execution (it lives in a heap object > 64 bytes), and CBMC
+// runs out of memory (14 GB) for both WotLK and TBC.  Listed under OUTSIDE.
+#[kani::proof]
+#[kani::stub(std::fmt::format, vio::fmt_stub)]
+#[kani::stub(std::string::String::from_utf8_lossy, segio::lossy_stub)]
+#[kani::unwind(16)]
+fn c13e_model_sections_tbc() { sections_model(M2Version::TBC, 52, 112, 124, false) }
+#[kani::proof]
+#[kani::stub(std::fmt::format, vio::fmt_stub)]
+#[kani::stub(std::string::String::from_utf8_lossy, segio::lossy_stub)]
+#[kani::unwind(16)]
+fn c13e_model_sections_vanilla() { sections_model(M2Version::Vanilla, 32, 108, 124, false) }
 
 /// witness (known finding model-texture-filename): a model with one texture that has a file name.  The writer patches the name's
 /// (count, offset) into the data section at an index computed with size_of::<M2Header>() (the in-memory struct) instead of the
